@@ -128,14 +128,82 @@ def handle (toks : List String) : String :=
   | op :: rest => (handleP op).run' { toks := rest.toArray }
   | [] => "ERR bad-op"
 
-partial def loop (h : IO.FS.Stream) (out : IO.FS.Stream) : IO Unit := do
+/-! ## forest state and multi-line requests -/
+
+def sIvs (l : List (Ival Float)) : String := " ".intercalate (l.map sI)
+
+partial def dumpNode (skip : Nat) (n : Node Float) : List String :=
+  let d := n.data
+  let head := s!"{"/".intercalate ((d.path.drop skip).map toString)} | {sIvs d.snapped} | {sIvs d.actual} | {if d.isStub then 1 else 0}"
+  match n with
+  | .leaf _ _ rows => [s!"L {head} | {" ".intercalate (rows.map toString)}"]
+  | .branch _ _ ch => s!"B {head} | {" ".intercalate (ch.map (fun p => toString p.1))}" :: (ch.map (fun p => dumpNode skip p.2)).flatten
+
+partial def countNodes (skip : Nat) (E : Env Float) (c : FCtx Float) (n : Node Float) : List String :=
+  let d := n.data
+  let me := s!"{"/".intercalate ((d.path.drop skip).map toString)} {showExI (n.noisyCount E c)} {if n.overThreshold E c c.ap.supp.lt then 1 else 0} {if n.isStubSubnode E c then 1 else 0}"
+  match n with
+  | .leaf .. => [me]
+  | .branch _ _ ch => me :: (ch.map (fun p => countNodes skip E c p.2)).flatten
+
+structure DState where
+  forest : Option (Forest Float) := none
+
+def pOptF (s : String) : Option Float := if s == "n" then none else some (pF s)
+
+def parseForest (hdr : List String) (names : List String) (rows : List (List String)) : Except String (Forest Float) := do
+  let p : P (ForestIn Float) := do
+    let _nrows ← nN; let ncols ← nN; let _npid ← nN
+    let kind ← pKind
+    let salt := pHex (← nxt); let supp ← pSupp
+    let ol ← nI; let ou ← nI; let tl ← nI; let tu ← nI; let nsd ← nF
+    let sing ← nI; let rg ← nI; let frac ← nN; let depth ← nN
+    let raw := rows.map (fun r => ((r.take ncols).map pOptF).toArray)
+    let pids := rows.map (fun r => (r.drop ncols).map pU)
+    return { names := names.map pStr, raw := raw.toArray, pids := pids.toArray,
+             ap := ⟨salt, supp, ⟨ol, ou⟩, ⟨tl, tu⟩, nsd⟩, bp := ⟨sing, rg, frac, depth⟩, kind }
+  Forest.init realEnv (p.run' { toks := hdr.toArray })
+
+def toks (line : String) : List String := (line.trimAscii.toString.splitOn " ").filter (· ≠ "")
+
+partial def loop (h : IO.FS.Stream) (out : IO.FS.Stream) (st : DState) : IO Unit := do
   let line ← h.getLine
   if line.isEmpty then return ()
-  let toks := (line.trimAscii.toString.splitOn " ").filter (· ≠ "")
-  out.putStrLn (handle toks)
-  loop h out
+  let ts := toks line
+  match ts with
+  | "forest" :: hdr =>
+      let nrows := (hdr.headD "0").toNat!
+      let names := (toks (← h.getLine)).drop 1
+      let mut rows : List (List String) := []
+      for _ in [0:nrows] do
+        rows := (toks (← h.getLine)) :: rows
+      match parseForest hdr names rows.reverse with
+      | .ok F =>
+          out.putStrLn s!"OK {sIvs F.rootSnapped0} | {sIvs F.snapped} | {" ".intercalate (F.nullMaps.map sF)}"
+          loop h out { st with forest := some F }
+      | .error e => out.putStrLn ("ERR " ++ e); loop h out st
+  | "tree" :: comb =>
+      match st.forest with
+      | none => out.putStrLn "ERR no-forest"; out.putStrLn "END"
+      | some F =>
+          let t := F.tree realEnv 8 (comb.map String.toNat!)
+          if t.depth 5000 ≥ 3990 then out.putStrLn "ERR fuel" else
+          for l in dumpNode t.data.path.length t do out.putStrLn l
+          out.putStrLn "END"
+      loop h out st
+  | "counts" :: comb =>
+      match st.forest with
+      | none => out.putStrLn "ERR no-forest"; out.putStrLn "END"
+      | some F =>
+          let t := F.tree realEnv 8 (comb.map String.toNat!)
+          for l in countNodes t.data.path.length realEnv F.ctx t do out.putStrLn l
+          out.putStrLn "END"
+      loop h out st
+  | _ =>
+      out.putStrLn (handle ts)
+      loop h out st
 
 def main : IO Unit := do
   let out ← IO.getStdout
-  loop (← IO.getStdin) out
+  loop (← IO.getStdin) out {}
   out.flush
